@@ -161,3 +161,17 @@ Proof.
   rewrite !mnet_app, start_net, blocks_net, end_net.
   replace ((ns - 2) * 4 + 4) with (Z.of_nat m * 4) by (unfold m; lia). lia.
 Qed.
+
+(* every face index of the thread mesh refers to one of its 4 * steps vertices *)
+Lemma thread_mesh_indices_in_range {T : Type} `{Num T} (d_min d_maj pitch length : T) (segments : Z) (li lo : T) (left : bool) :
+  let ns := mesh_steps d_min d_maj pitch length segments in 1 <= ns ->
+  Forall (fun i => 0 <= i < 4 * ns) (snd (thread_mesh d_min d_maj pitch length segments li lo left)).
+Proof.
+  cbv zeta. intros Hns. rewrite thread_mesh_indices. cbv zeta. set (ns := mesh_steps d_min d_maj pitch length segments) in *.
+  apply Forall_app. split; [|apply Forall_app; split].
+  - destruct left; cbn [start_faces]; repeat constructor; lia.
+  - rewrite Forall_forall. intros i Hi. apply in_flat_map in Hi. destruct Hi as [s [Hs Hi]]. unfold nseq in Hs. apply in_map_iff in Hs. destruct Hs as [s' [<- Hs]]. apply in_seq in Hs.
+    unfold ring_faces in Hi. apply in_map_iff in Hi. destruct Hi as [k [<- Hk]].
+    assert (0 <= k <= 7) by (destruct left; cbn [In] in Hk; lia). lia.
+  - rewrite Forall_map. destruct left; cbn [end_faces0]; repeat constructor; lia.
+Qed.
